@@ -82,6 +82,16 @@ type ReplayFile struct {
 	// re-executed from RunSeed (explore) or Tape (sweep) in a child process and the crash summary compared.
 	Crash     bool `json:"crash,omitempty"`
 	CrashTape bool `json:"crash_uses_tape,omitempty"`
+	// Prelude: runs of the same property that are executed first, in the same process, before Tape.
+	// Present when the violation depends on state that earlier runs leave in the process (a package-level
+	// cache or pool in the code under test): the run alone does not show it, the sequence does.
+	Prelude []PreludeRun `json:"prelude,omitempty"`
+}
+
+// PreludeRun is one earlier run of a replayable sequence.
+type PreludeRun struct {
+	Entry string   `json:"entry"`
+	Tape  []uint64 `json:"tape"`
 }
 
 type inflightRec struct {
@@ -241,6 +251,13 @@ func cmdWorker(args []string) int {
 	sigs := map[uint64]bool{}
 	seenViol := map[string]bool{}
 	abandoned := false
+	var recent []PreludeRun // the last runs of this worker process, oldest first
+	remember := func(entry string, tape []uint64) {
+		recent = append(recent, PreludeRun{Entry: entry, Tape: tape})
+		if len(recent) > 64 {
+			recent = recent[1:]
+		}
+	}
 	var unreproducible []string
 	var knownOpen []KnownFinding
 	if ks, err := loadKnown(); err == nil {
@@ -312,6 +329,7 @@ func cmdWorker(args []string) int {
 		var best []uint64
 		var execs int
 		var final *core.Result
+		var prelude []PreludeRun
 		isKnown := false
 		for _, k := range knownOpen {
 			if k.Property == orig.Property && k.Signature == orig.Signature && (k.Oracle == "" || k.Oracle == orig.Oracle) {
@@ -369,6 +387,46 @@ func cmdWorker(args []string) int {
 					}
 				} else {
 					final = nil
+					// The run alone does not show it in a fresh process. Does the sequence of runs this
+					// worker executed before it? Try the last 1, 2, 4, ... runs as a prelude, then cut the
+					// prelude down from the front while the violation still shows.
+					matches := func(rr *core.Result) bool {
+						return rr != nil && rr.Violation != nil && rr.Violation.Oracle == orig.Oracle && rr.Violation.Signature == orig.Signature
+					}
+					var ks []int
+					for k := 1; k < len(recent); k *= 2 {
+						ks = append(ks, k)
+					}
+					if len(recent) > 0 {
+						ks = append(ks, len(recent))
+					}
+					for _, k := range ks {
+						kickWatchdog("looking for a prelude " + e.Name)
+						pre := append([]PreludeRun(nil), recent[len(recent)-k:]...)
+						if rr, _ := subprocRunSeq(p.ID, e.Name, tape, pre); matches(rr) {
+							for len(pre) > 1 {
+								if rr2, _ := subprocRunSeq(p.ID, e.Name, tape, pre[1:]); matches(rr2) {
+									pre = pre[1:]
+								} else {
+									break
+								}
+							}
+							// drop prelude runs from the middle too, one at a time
+							for i := len(pre) - 2; i >= 0 && len(pre) > 1; i-- {
+								cand := append(append([]PreludeRun(nil), pre[:i]...), pre[i+1:]...)
+								if rr2, _ := subprocRunSeq(p.ID, e.Name, tape, cand); matches(rr2) {
+									pre = cand
+								}
+							}
+							f1, _ := subprocRunSeq(p.ID, e.Name, tape, pre)
+							f2, _ := subprocRunSeq(p.ID, e.Name, tape, pre)
+							if same(f1, f2) {
+								final, best, prelude = f1, tape, pre
+								so.Probes["violation-needs-earlier-runs-in-the-process"]++
+							}
+							break
+						}
+					}
 				}
 			}
 		}
@@ -382,7 +440,7 @@ func cmdWorker(args []string) int {
 			return
 		}
 		rf := &ReplayFile{Property: p.ID, Entry: e.Name, Mode: mode, Seed: *seed, RunSeed: runSeed, Tape: best, TapeOrig: len(tape), Shrink: execs,
-			Violation: final.Violation, Faults: final.Faults, Trace: final.Trace, Sample: final.Sample, Env: core.ReplayEnv()}
+			Violation: final.Violation, Faults: final.Faults, Trace: final.Trace, Sample: final.Sample, Env: core.ReplayEnv(), Prelude: prelude}
 		name := fmt.Sprintf("%s-%016x.json", p.ID, choice.Mix(choice.HashTape(best), choice.MixString(e.Name)))
 		path := filepath.Join(*replayDir, name)
 		b, _ := json.MarshalIndent(rf, "", " ")
@@ -418,6 +476,7 @@ func cmdWorker(args []string) int {
 			if r.Violation != nil {
 				handleViolation("sweep", e, 0, src.Tape(), r)
 			}
+			remember(sw.Entry, src.Tape())
 			return true
 		})
 		so.SweepDone[sw.Name] = complete
@@ -449,6 +508,7 @@ func cmdWorker(args []string) int {
 					break
 				}
 			}
+			remember(name, src.Tape())
 		}
 	}
 	if watchdog != nil {
@@ -534,6 +594,7 @@ func cmdReplay(args []string) int {
 	}
 	core.ApplyReplayEnv(rf.Env)
 	core.SetReplaying(true)
+	runPrelude(p, rf.Prelude)
 	kickWatchdog("replay")
 	r := runEntry(p, e, choice.Replay(rf.Tape))
 	verbose := len(args) > 1 && args[1] == "-v"
@@ -676,6 +737,16 @@ type tapeResult struct {
 	Sample    interface{}     `json:"sample"`
 }
 
+// runPrelude executes earlier runs of a replayable sequence; their outcomes are not judged.
+func runPrelude(p *core.Prop, pre []PreludeRun) {
+	for _, pr := range pre {
+		if pe := p.FindEntry(pr.Entry); pe != nil {
+			kickWatchdog("prelude " + pr.Entry)
+			runEntry(p, pe, choice.Replay(pr.Tape))
+		}
+	}
+}
+
 // cmdRunTape executes one tape in this (fresh) process and prints the outcome as JSON.
 func cmdRunTape(args []string) int {
 	fs := flag.NewFlagSet("runtape", flag.ExitOnError)
@@ -685,6 +756,7 @@ func cmdRunTape(args []string) int {
 	seed := fs.Uint64("seed", 0, "")
 	quick := fs.Bool("quick", true, "")
 	replaying := fs.Bool("replaying", false, "")
+	preludeFile := fs.String("preludefile", "", "")
 	fs.Parse(args)
 	ensureRaceLog()
 	core.SetReplaying(*replaying)
@@ -711,6 +783,14 @@ func cmdRunTape(args []string) int {
 	} else {
 		src = choice.New(*seed)
 	}
+	if *preludeFile != "" {
+		b, err := os.ReadFile(*preludeFile)
+		var pre []PreludeRun
+		if err != nil || json.Unmarshal(b, &pre) != nil {
+			return 2
+		}
+		runPrelude(p, pre)
+	}
 	kickWatchdog("runtape")
 	r := runEntry(p, e, src)
 	out, _ := json.Marshal(tapeResult{Violation: r.Violation, Used: src.Tape(), Faults: r.Faults, Trace: r.Trace, Sample: r.Sample})
@@ -720,6 +800,12 @@ func cmdRunTape(args []string) int {
 
 // subprocRun runs a tape in a fresh process (needed for race violations).
 func subprocRun(prop, entry string, tape []uint64) (*core.Result, []uint64) {
+	return subprocRunSeq(prop, entry, tape, nil)
+}
+
+// subprocRunSeq runs the prelude runs and then tape, all in one fresh process, and returns the outcome of
+// the last run.
+func subprocRunSeq(prop, entry string, tape []uint64, prelude []PreludeRun) (*core.Result, []uint64) {
 	f, err := os.CreateTemp("", "simrun-tape-")
 	if err != nil {
 		return nil, nil
@@ -729,7 +815,19 @@ func subprocRun(prop, entry string, tape []uint64) (*core.Result, []uint64) {
 	f.Write(b)
 	f.Close()
 	self, _ := os.Executable()
-	cmd := exec.Command(self, "runtape", "-prop", prop, "-entry", entry, "-tapefile", f.Name(), fmt.Sprintf("-quick=%v", core.Quick()), "-replaying")
+	args := []string{"runtape", "-prop", prop, "-entry", entry, "-tapefile", f.Name(), fmt.Sprintf("-quick=%v", core.Quick()), "-replaying"}
+	if len(prelude) > 0 {
+		pf, err := os.CreateTemp("", "simrun-prelude-")
+		if err != nil {
+			return nil, nil
+		}
+		defer os.Remove(pf.Name())
+		pb, _ := json.Marshal(prelude)
+		pf.Write(pb)
+		pf.Close()
+		args = append(args, "-preludefile", pf.Name())
+	}
+	cmd := exec.Command(self, args...)
 	env := []string{}
 	for _, kv := range os.Environ() {
 		if !strings.HasPrefix(kv, "SIMRUN_RACELOG=") && !strings.HasPrefix(kv, "GORACE=") {
